@@ -28,6 +28,8 @@ type c15Fn struct {
 	pub     bool
 	global  string   // own global it prints and marks ("" = none)
 	callees []string // names it calls (own or imported functions)
+	wrap    int      // syntactic position of the global access: 0 function body, 1 if block, 2 loop body, 3 match arm, 4 nested block
+	reads   []string // globals imported from another library module that it prints (never mutated by anybody)
 }
 
 type c15Mod struct {
@@ -114,7 +116,7 @@ func c15Gen(seed int, illegal int) *c15Graph {
 		}
 		for _, fnn := range c15FnNames {
 			if r.Intn(10) < 6 {
-				f := c15Fn{name: fnn, pub: r.Intn(10) < 6}
+				f := c15Fn{name: fnn, pub: r.Intn(10) < 6, wrap: r.Intn(5)}
 				if len(m.globals) > 0 {
 					f.global = m.globals[r.Intn(len(m.globals))]
 				}
@@ -164,6 +166,26 @@ func c15Gen(seed int, illegal int) *c15Graph {
 			}
 		}
 	}
+	// library-to-library imports of pub globals that no function mutates
+	for i := 1; i < len(g.mods); i++ {
+		for j := i + 1; j < len(g.mods); j++ {
+			for _, gn := range g.mods[j].globals {
+				if !g.mods[j].pubGlob[gn] || g.mods[i].hasGlobal(gn) || r.Intn(2) == 0 || len(g.mods[i].fns) == 0 {
+					continue
+				}
+				mutated := false
+				for _, f := range g.mods[j].fns {
+					mutated = mutated || f.global == gn
+				}
+				if _, dup := g.mods[i].imported(gn); dup || mutated {
+					continue
+				}
+				g.mods[i].addImport(g.mods[j].name, gn)
+				k := r.Intn(len(g.mods[i].fns))
+				g.mods[i].fns[k].reads = append(g.mods[i].fns[k].reads, gn)
+			}
+		}
+	}
 	// main: own globals and functions (overlapping names on purpose), imports
 	for _, gn := range c15GlobNames {
 		if r.Intn(2) == 0 {
@@ -188,7 +210,7 @@ func c15Gen(seed int, illegal int) *c15Graph {
 	}
 	for _, fnn := range c15FnNames {
 		if _, imp := main.imported(fnn); !imp && r.Intn(3) == 0 {
-			f := c15Fn{name: fnn}
+			f := c15Fn{name: fnn, wrap: r.Intn(5)}
 			if len(main.globals) > 0 {
 				f.global = main.globals[r.Intn(len(main.globals))]
 			}
@@ -288,6 +310,21 @@ func c15Gen(seed int, illegal int) *c15Graph {
 			main.addImport(lib.name, "cyca")
 		}
 		g.illegal = "cycle"
+	case 7: // a cycle of length three that does not go through the entry module
+		for len(g.mods) < 4 {
+			g.mods = append(g.mods, &c15Mod{name: []string{"mx", "my", "mz"}[len(g.mods)-1], pubGlob: map[string]bool{}})
+		}
+		a, b2, c := g.mods[1], g.mods[2], g.mods[3]
+		a.fns = append(a.fns, c15Fn{name: "cyca", pub: true})
+		b2.fns = append(b2.fns, c15Fn{name: "cycb", pub: true})
+		c.fns = append(c.fns, c15Fn{name: "cycc", pub: true})
+		a.addImport(b2.name, "cycb")
+		b2.addImport(c.name, "cycc")
+		c.addImport(a.name, "cyca")
+		if _, ok := main.imports[a.name]; !ok {
+			main.addImport(a.name, "cyca")
+		}
+		g.illegal = "cycle3"
 	case 6:
 		main.addImport("main", "main")
 		g.illegal = "self-import"
@@ -315,11 +352,27 @@ func (g *c15Graph) sources() Program {
 				pub = "pub "
 			}
 			fmt.Fprintf(&b, "%sfn %s() {\n", pub, f.name)
+			open, close := "", ""
+			switch f.wrap {
+			case 1:
+				open, close = "    if 1 == 1 {\n", "    }\n"
+			case 2:
+				open, close = "    for _i in 0..1 {\n", "    }\n"
+			case 3:
+				open, close = "    match 1 {\n    1 => {\n", "    },\n    _ => { }\n    }\n"
+			case 4:
+				open, close = "    {\n", "    }\n"
+			}
+			b.WriteString(open)
 			if f.global != "" {
 				fmt.Fprintf(&b, "    println(\"%s.%s\", %s);\n    %s = %s + \"+\";\n", m.name, f.name, f.global, f.global, f.global)
 			} else {
 				fmt.Fprintf(&b, "    println(\"%s.%s\", \"-\");\n", m.name, f.name)
 			}
+			for _, rd := range f.reads {
+				fmt.Fprintf(&b, "    println(\"%s.%s reads\", \"%s\", %s);\n", m.name, f.name, rd, rd)
+			}
+			b.WriteString(close)
 			for _, c := range f.callees {
 				fmt.Fprintf(&b, "    %s();\n", c)
 			}
@@ -375,6 +428,10 @@ func (g *c15Graph) expected() []string {
 			vals[k] += "+"
 		} else {
 			out = append(out, fmt.Sprintf("%s.%s -", def.name, f.name))
+		}
+		for _, rd := range f.reads {
+			from, _ := def.imported(rd)
+			out = append(out, fmt.Sprintf("%s.%s reads %s %s", def.name, f.name, rd, vals[from+"."+rd]))
 		}
 		for _, c := range f.callees {
 			call(def, c, depth+1)
@@ -536,7 +593,7 @@ func planC15(t *testing.T, tier string, seed uint64) ([]RunSpec, error) {
 		gseed := int(simrt.Mix(seed, uint64(gi)) % 1000000)
 		for backend := 0; backend < 2; backend++ {
 			add(map[string]int{"g": gseed, "backend": backend, "illegal": 0}, nil, orders)
-			ill := 1 + gi%6
+			ill := 1 + gi%7
 			add(map[string]int{"g": gseed, "backend": backend, "illegal": ill}, nil, 1+orders/4)
 			// host lookup faults on each of the first lookups
 			if gi%3 == 0 {
